@@ -156,8 +156,8 @@ def run_seq(shard, tier, acc):
     tree.rmtree(wd)
 
 
-def train_bytes(wd, data, enc, prefix, rule):
-    ok, base, out, pi = P.train(wd, None, rule=rule, raw_bytes=data, encoding=enc, prefixcount=prefix, coverage=0.6, ngram=2)
+def train_bytes(wd, data, enc, prefix, rule, **opts):
+    ok, base, out, pi = P.train(wd, None, rule=rule, raw_bytes=data, encoding=enc, prefixcount=prefix, coverage=0.6, ngram=2, **opts)
     if ok is not True:
         return None, out
     t = P.tree_bytes(base)
@@ -183,17 +183,21 @@ def run_rules(shard, tier, acc):
             vs = list(variants(seq, enc))
             if not vs:
                 continue
-            ref = None
             # reference: first admissible variant; then all-hex, CRLF, prefixcount and one mixed variant
             picks = [vs[0]] + [v for v in vs if v[0].endswith('hex=' + 'H' * len(runs(seq)))][:4]
             picks += [v for v in vs if 'CRLF repeated' in v[0]][:1] + [v for v in vs if 'LF prefixcount' in v[0]][:2]
-            seenv = set()
-            for name, data, prefix in picks:
+            # the other input of the trainer (--multiword FILE, plain words that pre-train the multi-word detector) is the same in every variant
+            for topts in ({}, {'multiword_words': ['pass', 'word', 'lead']}):
+              ref = None
+              seenv = set()
+              for name, data, prefix in picks:
                 if name in seenv:
                     continue
                 seenv.add(name)
+                if topts:
+                    name = name + ' --multiword'
                 acc.evals += 1
-                t, out = train_bytes(wd, data, enc, prefix, 'r')
+                t, out = train_bytes(wd, data, enc, prefix, 'r', **topts)
                 if t is None:
                     if ref is None:
                         break       # list cannot be trained at all (e.g. too short for OMEN): outside
@@ -371,8 +375,9 @@ def replay(case):
         msg = 'file is read as %r instead of %r' % (got, case['base'])
     elif case['layer'] == 'ruleset':
         vs = list(variants(case['base'], case['encoding']))
-        ref, _ = train_bytes(wd, vs[0][1], case['encoding'], vs[0][2], 'a')
-        t, _ = train_bytes(wd, data, case['encoding'], prefix, 'b')
+        topts = {'multiword_words': ['pass', 'word', 'lead']} if case.get('variant', '').endswith(' --multiword') else {}
+        ref, _ = train_bytes(wd, vs[0][1], case['encoding'], vs[0][2], 'a', **topts)
+        t, _ = train_bytes(wd, data, case['encoding'], prefix, 'b', **topts)
         if ref != t:
             msg = 'rulesets differ'
     tree.rmtree(wd)
